@@ -83,3 +83,35 @@ Proof. split; eexists; vm_compute; split; reflexivity. Qed.
 Example ex_walk_through_list :
   set_walk [(ex_root, fd 3 ex_root); (ex_inner, fd 0 ex_inner)] [] (PScalar (SStr [])) [] = Err EInvalid.
 Proof. reflexivity. Qed.
+
+(* ---------- the path-bound field of a ROUTED request (Proofs/BoundFieldProofs.v) ---------- *)
+From Larking Require Import Base.B64 Model.Lexer Model.Trie Model.Match Spec.Grammar Spec.Route Spec.Json3
+  Proofs.LexerProofs Proofs.MatchProofs Proofs.TrieProofs Proofs.RoutingProofs Proofs.ParamsConvProofs Proofs.BoundFieldProofs.
+
+(* C07, joined to the router.  The routed binding read as a rule of the request decoder (request
+   type rm, the variables resolved, ANY body selector) and the request with the routed captures, ANY
+   query and ANY body: if it is served, the handler's message has at every named variable's field
+   the image of the converted capture, under the same two conditions (singular last field; the
+   earlier variables of the template do not write into it). *)
+Theorem C07_routed_path_wins :
+  forall (ofloat : bool -> bytes -> option N) (owkt : wkt -> bool -> bytes -> option subtree)
+         (sch : schema) (req : str -> option nat) (isLetter isNumber : N -> bool),
+  Sane isLetter isNumber ->
+  forall (unmarshal : nat -> nat -> bytes -> option subtree) (inflate : bytes -> option bytes)
+         okconv L root verb p m caps,
+  TrieProofs.Inv isLetter isNumber (resolves_of sch req) L root ->
+  Match.route okconv isLetter isNumber root verb p = Ok (m, caps) ->
+  forall rm, req (m_id m) = Some rm ->
+  exists vs, vars_steps sch rm (m_vars m) = Some vs /\ length vs = length (rev caps) /\
+  forall bd query body codec gz M,
+    decode_request ofloat owkt unmarshal inflate sch (mkRule rm vs bd) (mkReq (rev caps) query body codec gz) = Ok M ->
+    forall i ns c, nth_error (m_vars m) i = Some ns -> ns <> [] -> nth_error (rev caps) i = Some c ->
+    exists fds v,
+      field_path sch (req_fields sch rm) ns = Some fds /\ nth_error vs i = Some fds /\ fds <> [] /\
+      parse_param ofloat owkt sch fds c = Ok v /\
+      ((exact_kind (f_kind (snd (last_step fds))) = true \/ f_kind (snd (last_step fds)) = KBytes) ->
+         json3_text sch (f_kind (snd (last_step fds))) v c) /\
+      (singular_last fds -> earlier_leave sch rm (m_vars m) i fds ->
+         forall rel, Schema.lookup (steps_path fds ++ rel) M = Schema.lookup rel (field_image (snd (last_step fds)) v)).
+Proof. exact bound_fields_with_query_and_body. Qed.
+Print Assumptions C07_routed_path_wins.
